@@ -11,6 +11,7 @@ import B2Z.Model.Pipeline
 import B2Z.Model.Schema
 import B2Z.Model.ExplodeProto
 import B2Z.Model.IcfDamage
+import B2Z.Model.EncodeProto
 /-! JSON line-protocol driver: one request object per line in, one JSON value per line out.
     Only `Model.*` (core Lean) is imported, so this also builds as a native executable. -/
 open Lean
@@ -147,6 +148,75 @@ def stepJson (name : α → String) : Fs.Step α (Fs.St α) → Json
   | .set o v => Json.arr #[Json.str "set", Json.str (name o), vJson v]
   | .move ps => Json.arr #[Json.str "move", Json.arr (ps.map fun (a, b) => Json.arr #[Json.str (name a), Json.str (name b)]).toArray]
   | .check _ => Json.arr #[Json.str "check"]
+
+def epObjName : EP.Obj → String
+  | .root => "root" | .plan => "plan" | .zmeta => "zmeta"
+  | .keep k => s!"keep:{k}" | .wips k => s!"wips:{k}" | .tmpl a => s!"tmpl:{a}"
+  | .wdir j => s!"wdir:{j}" | .wmeta j a => s!"wmeta:{j}:{a}" | .went j a e => s!"went:{j}:{a}:{e}"
+  | .pdir j => s!"pdir:{j}" | .pmeta j a => s!"pmeta:{j}:{a}" | .pent j a e => s!"pent:{j}:{a}:{e}"
+  | .sdir j => s!"sdir:{j}" | .smeta j a => s!"smeta:{j}:{a}" | .sent j a e => s!"sent:{j}:{a}:{e}"
+  | .aent a e => s!"aent:{a}:{e}" | .farr a => s!"farr:{a}" | .fent a e => s!"fent:{a}:{e}"
+  | .ridx k => s!"ridx:{k}"
+
+def epParseObj (s : String) : Except String EP.Obj := do
+  let parts := s.splitOn ":"
+  let n : Nat → Nat := fun i => ((parts.getD i "0").toNat?).getD 0
+  match parts.headD "" with
+  | "root" => pure .root | "plan" => pure .plan | "zmeta" => pure .zmeta
+  | "keep" => pure (.keep (n 1)) | "wips" => pure (.wips (n 1)) | "tmpl" => pure (.tmpl (n 1))
+  | "wdir" => pure (.wdir (n 1)) | "wmeta" => pure (.wmeta (n 1) (n 2)) | "went" => pure (.went (n 1) (n 2) (n 3))
+  | "pdir" => pure (.pdir (n 1)) | "pmeta" => pure (.pmeta (n 1) (n 2)) | "pent" => pure (.pent (n 1) (n 2) (n 3))
+  | "sdir" => pure (.sdir (n 1)) | "smeta" => pure (.smeta (n 1) (n 2)) | "sent" => pure (.sent (n 1) (n 2) (n 3))
+  | "aent" => pure (.aent (n 1) (n 2)) | "farr" => pure (.farr (n 1)) | "fent" => pure (.fent (n 1) (n 2))
+  | "ridx" => pure (.ridx (n 1))
+  | x => throw s!"bad object {x}"
+
+def parseV (v : Json) : Except String Fs.V := do
+  match ← v.getStr? with
+  | "ok" => pure .ok | "torn" => pure .torn | "absent" => pure .absent
+  | x => throw s!"bad value {x}"
+
+/-- ["hdr", a, v] | ["ent", a, e, v] -/
+def parsePRefV (v : Json) : Except String (EP.PRef × Fs.V) := do
+  let a ← v.getArr?
+  match a.getD 0 Json.null with
+  | .str "hdr" => pure (.hdr (← (a.getD 1 Json.null).getNat?), ← parseV (a.getD 2 Json.null))
+  | .str "ent" => pure (.ent (← (a.getD 1 Json.null).getNat?) (← (a.getD 2 Json.null).getNat?), ← parseV (a.getD 3 Json.null))
+  | _ => throw "bad pref"
+
+def epCfg (j : Json) : Except String EP.Cfg := do
+  let perJ : String → Except String (List (List (EP.PRef × Fs.V))) := fun key => do
+    match j.getObjVal? key with
+    | .ok v => (← v.getArr?).toList.mapM fun x => do (← x.getArr?).toList.mapM parsePRefV
+    | .error _ => pure []
+  let ents ← (← reqArr j "ents").toList.mapM fun pj => do (← pj.getArr?).toList.mapM natList
+  let mv ← match j.getObjVal? "mv_order" with
+    | .ok v => (← v.getArr?).toList.mapM fun pj => do (← pj.getArr?).toList.mapM natList
+    | .error _ => pure []
+  let initSeq ← match j.getObjVal? "init_seq" with
+    | .ok v => (← v.getArr?).toList.mapM fun x => do
+        let a ← x.getArr?
+        let k ← (a.getD 1 Json.null).getNat?
+        let vv ← parseV (a.getD 2 Json.null)
+        match a.getD 0 Json.null with
+        | .str "keep" => pure (EP.IRef.keep k, vv) | .str "wips" => pure (EP.IRef.wips k, vv) | .str "tmpl" => pure (EP.IRef.tmpl k, vv)
+        | _ => throw "bad iref"
+    | .error _ => pure []
+  let rmWip ← match j.getObjVal? "rm_wip" with
+    | .ok v => (← v.getArr?).toList.mapM fun x => do
+        let a ← x.getArr?
+        pure (← epParseObj (← (a.getD 0 Json.null).getStr?), ← parseV (a.getD 1 Json.null))
+    | .error _ => pure []
+  let ridx ← match j.getObjVal? "ridx_seq" with
+    | .ok v => (← v.getArr?).toList.mapM fun x => do
+        let a ← x.getArr?
+        pure (← (a.getD 0 Json.null).getNat?, ← parseV (a.getD 1 Json.null))
+    | .error _ => pure []
+  let wseq ← perJ "wseq"; let rmWork ← perJ "rm_work"; let rmStale ← perJ "rm_stale"
+  pure { nParts := ← reqNat j "n_parts", nArrays := ← reqNat j "n_arrays",
+         ents := fun p a => (ents.getD p []).getD a [], initSeq := initSeq,
+         wseq := fun p => wseq.getD p [], rmWork := fun p => rmWork.getD p [], rmStale := fun p => rmStale.getD p [],
+         mvOrder := fun p a => (mv.getD p []).getD a [], rmWip := rmWip, ridxSeq := ridx }
 
 def handle (j : Json) : Except String Json := do
   let op ← (← j.getObjVal? "op").getStr?
@@ -369,6 +439,31 @@ def handle (j : Json) : Except String Json := do
       (acc.1 ++ [({ chunks := chunks } : B2Z.Part Nat)], n)) ([], 0)
     pure (Json.mkObj [("chunks", Json.arr ((Dmg.chunksRead store a b).map fun (p, k) => natsJson [p, k]).toArray),
                       ("indexes", natsJson (Dmg.indexesRead store a b))])
+  | "ep.step" =>
+    let c ← epCfg j
+    let stObj ← j.getObjVal? "state"
+    let pairs ← match stObj with
+      | .obj kv => kv.toList.mapM fun (k, v) => do pure (← epParseObj k, ← parseV v)
+      | _ => throw "state must be an object"
+    let s0 : EP.S := fun o => ((pairs.find? fun p => p.1 = o).map (·.2)).getD .absent
+    let cmd ← (← j.getObjVal? "cmd").getStr?
+    let kill := optNat j "kill"
+    let cm : EP.Cmd ← match cmd with
+      | "init" => pure .init | "finalise" => pure .finalise
+      | "partition" => pure (.partition (← reqNat j "j"))
+      | _ => throw "bad cmd"
+    let prog := EP.prog c s0 cm
+    let o := EP.step c s0 cm kill
+    let full := EP.step c s0 cm none
+    -- objects that can be non-absent: those of the old state plus every object the program mentions
+    let mentioned : List EP.Obj := prog.flatMap fun st => match st with
+      | .set ob _ => [ob] | .move ps => ps.flatMap fun (a, b) => [a, b] | .check _ => []
+    let objs := ((pairs.map (·.1)) ++ mentioned).eraseDups
+    let state := objs.filterMap fun ob => if o.st ob = .absent then none else some (epObjName ob, vJson (o.st ob))
+    pure (Json.mkObj [("error", Json.bool o.error), ("muts", Json.num (JsonNumber.fromNat o.muts)),
+      ("total_muts", Json.num (JsonNumber.fromNat full.muts)), ("full_error", Json.bool full.error),
+      ("state", Json.mkObj state), ("finished", Json.bool (EP.finished o.st)),
+      ("prog", Json.arr ((prog.filter fun st => match st with | .check _ => false | _ => true).map (stepJson epObjName)).toArray)])
   | "xp.hist" =>
     let c ← xpCfg j
     let hist ← (← reqArr j "history").toList.mapM xpCmd
